@@ -325,9 +325,32 @@ pub fn panic_text(e: Box<dyn std::any::Any + Send>) -> String {
     }
 }
 
-/// Call the subject; a panic becomes Err(message).
+/// Call the subject; a panic becomes Err(message). The call is visible to the hang watchdog (coarse tick, ~2 ns).
 pub fn guarded<T, F: FnOnce() -> T>(f: F) -> Result<T, String> {
-    catch_unwind(AssertUnwindSafe(f)).map_err(panic_text)
+    MY_SLOT.with(|s| s.since_tick.store(TICK.load(Ordering::Relaxed), Ordering::Relaxed));
+    let r = catch_unwind(AssertUnwindSafe(f)).map_err(panic_text);
+    MY_SLOT.with(|s| s.since_tick.store(0, Ordering::Relaxed));
+    r
+}
+
+/// Describe the case the next guarded calls of this thread belong to (four words, meaning chosen by the module;
+/// shown in the witness if a call does not return). Three relaxed stores.
+pub fn set_case(tag: u64, a: u64, b: u64, c: u64) {
+    MY_SLOT.with(|s| {
+        s.case[0].store(tag, Ordering::Relaxed);
+        s.case[1].store(a, Ordering::Relaxed);
+        s.case[2].store(b, Ordering::Relaxed);
+        s.case[3].store(c, Ordering::Relaxed);
+    });
+}
+
+/// Frame bytes (up to 24) as the case description.
+pub fn set_case_bytes(tag: u64, bytes: &[u8]) {
+    let mut w = [0u64; 3];
+    for (i, b) in bytes.iter().take(24).enumerate() {
+        w[i / 8] |= (*b as u64) << (8 * (i % 8));
+    }
+    set_case(tag | ((bytes.len() as u64) << 32), w[0], w[1], w[2]);
 }
 
 // ---------------------------------------------------------------------------
@@ -339,7 +362,13 @@ pub struct WatchSlot {
     /// milliseconds since process start when the current call began, 0 = idle
     pub since: AtomicU64,
     pub input: Mutex<Vec<u8>>,
+    /// watchdog tick at which the current `guarded` call began, 0 = idle
+    pub since_tick: AtomicU64,
+    pub case: [AtomicU64; 4],
 }
+
+/// advanced by the watchdog thread every 500 ms (starts at 1 so that 0 can mean idle)
+static TICK: AtomicU64 = AtomicU64::new(1);
 
 static WATCH_SLOTS: Mutex<Vec<std::sync::Arc<WatchSlot>>> = Mutex::new(Vec::new());
 static PROCESS_START: std::sync::OnceLock<Instant> = std::sync::OnceLock::new();
@@ -347,7 +376,7 @@ pub static EMERGENCY_EXIT: std::sync::OnceLock<Box<dyn Fn() + Send + Sync>> = st
 
 thread_local! {
     static MY_SLOT: std::sync::Arc<WatchSlot> = {
-        let s = std::sync::Arc::new(WatchSlot { since: AtomicU64::new(0), input: Mutex::new(Vec::new()) });
+        let s = std::sync::Arc::new(WatchSlot { since: AtomicU64::new(0), input: Mutex::new(Vec::new()), since_tick: AtomicU64::new(0), case: [AtomicU64::new(0), AtomicU64::new(0), AtomicU64::new(0), AtomicU64::new(0)] });
         WATCH_SLOTS.lock().unwrap().push(s.clone());
         s
     };
@@ -377,6 +406,7 @@ pub fn guarded_watch<T, F: FnOnce() -> T>(input: &[u8], f: F) -> Result<T, Strin
 pub fn start_watchdog(rep: &'static Report, class: &'static str, limit_s: u64) {
     std::thread::spawn(move || loop {
         std::thread::sleep(std::time::Duration::from_millis(500));
+        let tick = TICK.fetch_add(1, Ordering::Relaxed) + 1;
         let now = now_ms();
         let slots: Vec<std::sync::Arc<WatchSlot>> = WATCH_SLOTS.lock().unwrap().clone();
         for s in slots {
@@ -384,6 +414,26 @@ pub fn start_watchdog(rep: &'static Report, class: &'static str, limit_s: u64) {
             if since != 0 && now.saturating_sub(since) > limit_s * 1000 {
                 let input = s.input.lock().unwrap().clone();
                 rep.violation(class, format!("the call on input {} has not returned after {limit_s} s", hexs(&input)), json!({"frame": hexs(&input), "group": "hang"}));
+                rep.not_exhaustive("stopped by the hang watchdog");
+                if let Some(f) = EMERGENCY_EXIT.get() {
+                    f();
+                }
+                std::process::exit(3);
+            }
+            let t = s.since_tick.load(Ordering::Relaxed);
+            if t != 0 && tick.saturating_sub(t) > 2 * limit_s {
+                // a plain `guarded` call: the module's case description, if it set one
+                let case: Vec<u64> = s.case.iter().map(|c| c.load(Ordering::Relaxed)).collect();
+                let len = (case[0] >> 32) as usize;
+                let mut bytes = Vec::new();
+                for i in 0..len.min(24) {
+                    bytes.push((case[1 + i / 8] >> (8 * (i % 8))) as u8);
+                }
+                rep.violation(
+                    class,
+                    format!("a call into the subject has not returned after {limit_s} s; case words {:#x} {:#x} {:#x} {:#x}{}", case[0] & 0xffff_ffff, case[1], case[2], case[3], if len > 0 { format!(" (bytes {})", hexs(&bytes)) } else { String::new() }),
+                    json!({"kind": "hang", "case": case.iter().map(|c| format!("{c:#x}")).collect::<Vec<_>>(), "bytes": hexs(&bytes)}),
+                );
                 rep.not_exhaustive("stopped by the hang watchdog");
                 if let Some(f) = EMERGENCY_EXIT.get() {
                     f();
